@@ -4,6 +4,16 @@ import json, os, subprocess
 HERE = os.path.dirname(os.path.dirname(os.path.abspath(__file__)))
 
 CHECKS = {
+ 'C13': dict(
+    category='exploration', design_ref='4/C13',
+    technique='reference-count model checked against the live server state (debug_info ids/refcounts, /dev/shm) after every step of seeded cross-process histories, behind a quiescence protocol',
+    text='36 (quick) / 600 (thorough) histories of 10-60 steps over create / copy / pickle-and-hold / unpickle-once in any of three client processes / nest in hosted list, dict, Box / un-nest / fetch nested / managed_*() returns / delete / child process via argument and via queue / agent exit with live proxies / shared-memory write-read, with the model count (live proxies + proxies held by hosted containers + pickles in transit) compared with the server after every step; liveness probes on live proxies.',
+    note='Trusted: the model in checks/c13.py; comparisons only after gc in every client + one no-op call per connection (up to 4 s of retries; measured: first try always suffices).'),
+ 'C14': dict(
+    category='exploration', design_ref='4/C14',
+    technique='differential runtime oracle: the same seeded operation sequence applied through proxies (several copies, threads, agent processes) and to a local object of the hosted class, compared step by step incl. raised (type, args); remote-traceback and connection-liveness probes after each raising call; managed_*() values read back inside the server',
+    text='40 (quick) / 600 (thorough) sequences of 60-300 operations on hosted list, dict, Namespace, Value and a custom class through proxies in the harness and 1-2 agent processes, about a quarter raising; managed_list/dict values mutated through the returned proxy from every process and read back server-side; concurrent phases with 2-4 threads plus agents on commutative / key-partitioned operations.',
+    note='Trusted: client-side signature errors of typed proxies are not counted as method exceptions; exceptions compared by (type name, args).'),
  'C15': dict(
     category='exploration', design_ref='4/C15',
     technique='runtime oracle over hop chains: original (type, args, formatted traceback) recorded at the raise site, compared after every RemoteException wrap + pickle hop; forwarded-only hops must keep the text identical; sampled through real Process pipes',
